@@ -19,8 +19,11 @@ META = {
                    "tasks without inputs, follows in- and out-edges, puts every task in exactly one component and lists as a component's sources "
                    "its input-free tasks (decided on two model DAGs in every visiting order — the V shape a->c<-b needs the in-edge direction, "
                    "the isolated task needs its own component). "
-                   "Not decided: that the partition is the weakly connected components of every DAG, task values, the distance matrix, depth "
-                   "(graph-algorithm results over all DAGs; no structural necessary condition in reach that would not freeze today's source shape).",
+                   "Small-scope clauses (task names are opaque to the code, which only counts, compares and takes min / max): on every DAG with "
+                   "up to four tasks, decompose yields exactly the weakly connected components, enrich gives depth = number of layers, value = "
+                   "depth - distance to the nearest sink, and the distance matrix of the nearest-common-descendant definition (also checked for "
+                   "the pure-Python fallback on the path matrices of all 64 four-task DAGs). "
+                   "Not decided: components with more than four tasks (the scope is a bound, not a proof), the optional coptrs implementation.",
     "assumptions": ["task ids are opaque (used only through equality / hashing)"],
 }
 
@@ -40,12 +43,12 @@ def r1_projections(ctx):
     repo = ctx.repo
     A, B, C = "A", "B", "C"
     # A.0 has two consumers; C reads two different outputs of A (parallel edges between one pair of tasks) and one of B
-    edges = [_edge(A, "0", B, kw="x"), _edge(A, "0", C, ps=0), _edge(B, "1", C, kw="y"), _edge(A, "1", C, kw="z")]
+    edges = [_edge(A, "0", B, kw="x"), _edge(A, "0", C, ps=0), _edge(B, "1", C, kw="y"), _edge(A, "1", C, kw="z"), _edge(A, "2", "E", kw="w")]
     fd = repo.func(f"{VW}.dependants")
     ctx.analysed(fd.qual)
     ps = Interp(repo).explore(fd, args={"edges": list(edges)})
     ctx.evals(len(ps))
-    want = {dsid(A, "0"): {B, C}, dsid(B, "1"): {C}, dsid(A, "1"): {C}}
+    want = {dsid(A, "0"): {B, C}, dsid(B, "1"): {C}, dsid(A, "1"): {C}, dsid(A, "2"): {"E"}}
     got = _as_plain(ps[0].exit[1]) if len(ps) == 1 and ps[0].exit[0] == "return" else None
     if got is None or {k: set(v) for k, v in got.items() if v} != want:
         ctx.violation("C16.R1", fd.qual, loc(fd), "consumers per dataset", f"edges A.0->B, A.0->C, B.1->C, A.1->C: dependants = {vkey(got)[:160]}, expected {vkey(want)}")
@@ -55,7 +58,7 @@ def r1_projections(ctx):
     ctx.analysed(fp.qual)
     ps = Interp(repo).explore(fp, args={"edges": list(edges)})
     ctx.evals(len(ps))
-    want = {B: {"x": dsid(A, "0")}, C: {0: dsid(A, "0"), "y": dsid(B, "1"), "z": dsid(A, "1")}}
+    want = {B: {"x": dsid(A, "0")}, C: {0: dsid(A, "0"), "y": dsid(B, "1"), "z": dsid(A, "1")}, "E": {"w": dsid(A, "2")}}
     got = _as_plain(ps[0].exit[1]) if len(ps) == 1 and ps[0].exit[0] == "return" else None
     if got is None or {k: dict(v) for k, v in got.items()} != want:
         ctx.violation("C16.R1", fp.qual, loc(fp), "inputs per task", f"edges A.0->B[x], A.0->C[0], B.1->C[y]: param_source = {vkey(got)[:200]}, expected {vkey(want)}")
@@ -71,7 +74,7 @@ def r1_projections(ctx):
     fi = repo.func(f"{GR}.precompute")
     ctx.analysed(fi.qual)
     tdef = lambda outs: Obj("cascade.low.core.TaskInstance", {"definition": Obj("cascade.low.core.TaskDefinition", {"output_schema": {o: "Any" for o in outs}})})
-    job = Obj("cascade.low.core.JobInstance", {"tasks": {A: tdef(["0", "1"]), B: tdef(["1"]), C: tdef(["0"]), "D": tdef(["0"])}, "edges": list(edges)}, name="JOB")
+    job = Obj("cascade.low.core.JobInstance", {"tasks": {A: tdef(["0", "1", "2"]), B: tdef(["1"]), C: tdef(["0"]), "D": tdef(["0"]), "E": tdef(["0"])}, "edges": list(edges)}, name="JOB")
     plain = [(["D"], ["D"]), ([A, B, C], [A]), (["E1", "E2"], ["E1"])]
 
     def enrich(run, a, k, n, f):
@@ -96,12 +99,12 @@ def r1_projections(ctx):
     eo = {k: set(v) for k, v in _as_plain(f_.get("edge_o", {})).items() if v}
     ei = {k: set(v) for k, v in _as_plain(f_.get("edge_i", {})).items() if v}
     to = {k: set(v) for k, v in _as_plain(f_.get("task_o", {})).items()}
-    want_eo = {dsid(A, "0"): {B, C}, dsid(B, "1"): {C}, dsid(A, "1"): {C}}
-    want_ei = {B: {dsid(A, "0")}, C: {dsid(A, "0"), dsid(B, "1"), dsid(A, "1")}}
-    want_to = {A: {dsid(A, "0"), dsid(A, "1")}, B: {dsid(B, "1")}, C: {dsid(C, "0")}, "D": {dsid("D", "0")}}
+    want_eo = {dsid(A, "0"): {B, C}, dsid(B, "1"): {C}, dsid(A, "1"): {C}, dsid(A, "2"): {"E"}}
+    want_ei = {B: {dsid(A, "0")}, C: {dsid(A, "0"), dsid(B, "1"), dsid(A, "1")}, "E": {dsid(A, "2")}}
+    want_to = {A: {dsid(A, "0"), dsid(A, "1"), dsid(A, "2")}, B: {dsid(B, "1")}, C: {dsid(C, "0")}, "D": {dsid("D", "0")}, "E": {dsid("E", "0")}}
     for nm, got_, want_ in (("edge_o (consumers of each dataset)", eo, want_eo), ("edge_i (inputs of each task)", ei, want_ei), ("task_o (outputs of each task)", to, want_to)):
         if got_ != want_:
-            ctx.violation("C16.R1", fi.qual, loc(fi), nm.split(" ")[0], f"model job (A.0->B, A.0->C, B.1->C, A.1->C; D isolated): {nm} = {vkey(got_)[:200]}, expected {vkey(want_)[:200]}")
+            ctx.violation("C16.R1", fi.qual, loc(fi), nm.split(" ")[0], f"model job (A.0->B, A.0->C, B.1->C, A.1->C, A.2->E; D isolated): {nm} = {vkey(got_)[:200]}, expected {vkey(want_)[:200]}")
         else:
             ctx.ok("C16.R1", loc(fi), f"precompute: {nm} as the edges state")
     # what the component search is given: every task, and task-level projections of the edges
@@ -109,10 +112,10 @@ def r1_projections(ctx):
         nodes, ein, eout = (list(seen["args"]) + [None, None, None])[:3]
         ein_p = {k: set(v) for k, v in _as_plain(ein).items() if v} if isinstance(ein, dict) else None
         eout_p = {k: set(v) for k, v in _as_plain(eout).items() if v} if isinstance(eout, dict) else None
-        if sorted(nodes or []) != [A, B, C, "D"] or ein_p != {B: {A}, C: {A, B}} or eout_p != {A: {B, C}, B: {C}}:
+        if sorted(nodes or []) != [A, B, C, "D", "E"] or ein_p != {B: {A}, C: {A, B}, "E": {A}} or eout_p != {A: {B, C, "E"}, B: {C}}:
             ctx.violation("C16.R1", fi.qual, loc(fi), "task-level projections handed to the component search",
-                          f"decompose is given tasks {vkey(nodes)[:60]}, producers-of {vkey(ein_p)[:100]}, consumers-of {vkey(eout_p)[:100]}; expected all four tasks, "
-                          f"{{B: {{A}}, C: {{A, B}}}} and {{A: {{B, C}}, B: {{C}}}}")
+                          f"decompose is given tasks {vkey(nodes)[:60]}, producers-of {vkey(ein_p)[:100]}, consumers-of {vkey(eout_p)[:100]}; expected all five tasks, "
+                          f"{{B: {{A}}, C: {{A, B}}, E: {{A}}}} and {{A: {{B, C, E}}, B: {{C}}}}")
         else:
             ctx.ok("C16.R1", loc(fi), "the component search is given every task and the task-level in/out projections of the edges")
     comps = f_.get("components")
@@ -167,6 +170,175 @@ def r3_flood_fill(ctx):
         else:
             ctx.ok("C16.R3", loc(fi), f"decompose | {label}: partition and sources as expected in {len(perms)} visiting orders")
     ctx.floor("C16.R3.runs", n, 8)
+    # every DAG over four tasks (one topological order per shape): the partition is exactly the weakly connected components
+    nodes = ["a", "b", "c", "d"]
+    pairs = [(x, y) for i_, x in enumerate(nodes) for y in nodes[i_ + 1:]]
+    m = wrong = 0
+    for mask in range(1 << len(pairs)):
+        edges = [pr for k, pr in enumerate(pairs) if mask >> k & 1]
+        comp = {v: v for v in nodes}
+
+        def find(v):
+            while comp[v] != v:
+                v = comp[v]
+            return v
+        for x, y in edges:
+            comp[find(x)] = find(y)
+        groups = {}
+        for v in nodes:
+            groups.setdefault(find(v), set()).add(v)
+        ei = {v: {x for x, y in edges if y == v} for v in nodes}
+        eo = {v: {y for x, y in edges if x == v} for v in nodes}
+        exp = sorted((sorted(g), sorted(v for v in g if not ei[v])) for g in groups.values())
+        ps = Interp(repo, max_while=40, max_concrete_iter=40).explore(fi, args={"nodes": list(nodes), "edge_i": ei, "edge_o": eo})
+        ctx.evals(len(ps))
+        m += 1
+        ys = [e.data.get("value") for e in ps[0].effects if e.kind == "yield"] if len(ps) == 1 and ps[0].exit[0] == "return" else None
+        got = sorted((sorted(c[0]), sorted(c[1])) for c in ys) if ys is not None and all(isinstance(c, tuple) and len(c) == 2 for c in ys) else None
+        if got != exp or (ys is not None and any(len(c[0]) != len(set(c[0])) for c in ys)):
+            wrong += 1
+            ctx.violation("C16.R3", fi.qual, loc(fi), "partition = weakly connected components",
+                          f"DAG with edges {edges}: decompose yields {[(list(c[0]), list(c[1])) for c in ys] if ys is not None else [(p.exit[0]) for p in ps]}; expected the components "
+                          f"{exp} (each task once, sources = input-free tasks)")
+            break
+    if not wrong:
+        ctx.ok("C16.R3", loc(fi), f"decompose == weakly connected components on all {m} DAGs over four tasks")
+    ctx.floor("C16.R3.dags", m, 1 if wrong else 64)
 
 
 RULES = [r1_projections, r3_flood_fill]
+
+
+def r4_ncd_fallback(ctx):
+    """C16.R4: the pure-Python nearest-common-descendant table equals its definition — distance(a, a) = 0 and, for a != b,
+    distance(a, b) = min over c of max(paths[a][c], paths[b][c]), the depth L if no task is reachable from both — on the shortest-path
+    matrix of *every* DAG over four tasks (all 64 edge sets compatible with one topological order; the function is symmetric in the
+    task names).  The function touches path lengths only through min / max / comparisons, so its result depends on their relative
+    order only; four tasks give every configuration of two tasks, a connecting path and a nearer common consumer."""
+    repo = ctx.repo
+    fi = repo.func(f"{GR}.nearest_common_descendant")
+    ctx.analysed(fi.qual)
+    import collections
+    nodes = ["a", "b", "c", "d"]
+    pairs = [(x, y) for i_, x in enumerate(nodes) for y in nodes[i_ + 1:]]
+    n = bad = undecided = 0
+    for mask in range(1 << len(pairs)):
+        edges = [pr for k, pr in enumerate(pairs) if mask >> k & 1]
+        # shortest path lengths along the edges (Floyd-Warshall on 4 tasks); depth L = number of layers = longest path + 1
+        INF = 99
+        d = {x: {y: (0 if x == y else INF) for y in nodes} for x in nodes}
+        for x, y in edges:
+            d[x][y] = 1
+        for m in nodes:
+            for x in nodes:
+                for y in nodes:
+                    d[x][y] = min(d[x][y], d[x][m] + d[m][y])
+        longest = {x: 0 for x in nodes}
+        for x in reversed(nodes):
+            longest[x] = max([1 + longest[y] for (x2, y) in edges if x2 == x] + [0])
+        L = max(longest.values()) + 1
+        want = {a: {b: (0 if a == b else min([max(d[a][c], d[b][c]) for c in nodes if d[a][c] < INF and d[b][c] < INF] + [L])) for b in nodes} for a in nodes}
+        paths_arg = {x: collections.defaultdict((lambda _L=L: _L), {y: v for y, v in d[x].items() if v < INF}) for x in nodes}
+        ps = [p for p in Interp(repo, max_concrete_iter=80).explore(fi, args={"paths": paths_arg, "nodes": list(nodes), "L": L})
+              if not any(dd.key.startswith("import_fails") and not dd.value for dd in p.decisions)]
+        ctx.evals(len(ps))
+        n += 1
+        if len(ps) != 1 or ps[0].exit[0] != "return" or not isinstance(ps[0].exit[1], dict):
+            undecided += 1
+            continue
+        got = {a: dict(r) for a, r in ps[0].exit[1].items()}
+        diff = [(a, b, got.get(a, {}).get(b), want[a][b]) for a in nodes for b in nodes if got.get(a, {}).get(b) != want[a][b]]
+        if diff:
+            bad += 1
+            ctx.violation("C16.R4", fi.qual, loc(fi), "distance = nearest common descendant",
+                          f"DAG with edges {edges} (depth {L}): the fallback gives distance({diff[0][0]}, {diff[0][1]}) = {diff[0][2]}, the definition "
+                          f"min over c of max(d(a,c), d(b,c)) gives {diff[0][3]}")
+            break
+    if undecided:
+        ctx.undecided("C16.R4", loc(fi), f"{undecided} of {n} DAGs: the fallback is not a single completed path")
+    elif not bad:
+        ctx.ok("C16.R4", loc(fi), f"fallback == definition on the path matrices of all {n} DAGs over four tasks")
+    ctx.floor("C16.R4.dags", n, 64)
+
+
+RULES.append(r4_ncd_fallback)
+
+
+def r5_enrich_small_scope(ctx):
+    """C16.R5: `enrich` on every weakly connected DAG with up to four tasks (one topological order per shape; task names are opaque to the
+    code): depth = number of layers (longest path + 1), value(v) = depth - distance from v to its nearest sink, distance matrix = nearest
+    common descendant by the definition, sources / nodes as given.  Bounded scope, stated as such: larger components are not decided."""
+    repo = ctx.repo
+    fi = repo.func(f"{GR}.enrich")
+    ctx.analysed(fi.qual)
+    INF = 99
+    n = bad = undecided = 0
+    for size in (1, 2, 3, 4):
+        nodes = ["a", "b", "c", "d"][:size]
+        pairs = [(x, y) for i_, x in enumerate(nodes) for y in nodes[i_ + 1:]]
+        for mask in range(1 << len(pairs)):
+            edges = [pr for k, pr in enumerate(pairs) if mask >> k & 1]
+            # weakly connected?
+            seen, todo = {nodes[0]}, [nodes[0]]
+            while todo:
+                v = todo.pop()
+                for x, y in edges:
+                    for u, w in ((x, y), (y, x)):
+                        if u == v and w not in seen:
+                            seen.add(w)
+                            todo.append(w)
+            if len(seen) != len(nodes):
+                continue
+            d = {x: {y: (0 if x == y else INF) for y in nodes} for x in nodes}
+            for x, y in edges:
+                d[x][y] = 1
+            for m in nodes:
+                for x in nodes:
+                    for y in nodes:
+                        d[x][y] = min(d[x][y], d[x][m] + d[m][y])
+            ei = {v: {x for x, y in edges if y == v} for v in nodes}
+            eo = {v: {y for x, y in edges if x == v} for v in nodes}
+            sinks = [v for v in nodes if not eo[v]]
+            longest = {}
+            for x in reversed(nodes):
+                longest[x] = max([1 + longest[y] for y in eo[x]] + [0])
+            L = max(longest.values()) + 1
+            want_value = {v: L - min(d[v][s] for s in sinks if d[v][s] < INF) for v in nodes}
+            want_dist = {a: {b: (0 if a == b else min([max(d[a][c], d[b][c]) for c in nodes if d[a][c] < INF and d[b][c] < INF] + [L])) for b in nodes} for a in nodes}
+            sources = [v for v in nodes if not ei[v]]
+            ps = [p for p in Interp(repo, max_concrete_iter=80, max_while=12, inline={f"{GR}.nearest_common_descendant"}).explore(
+                fi, args={"plain_component": (list(nodes), list(sources)), "edge_i": {k: set(v) for k, v in ei.items()}, "edge_o": {k: set(v) for k, v in eo.items()}})
+                if not any(dd.key.startswith("import_fails") and not dd.value for dd in p.decisions)]
+            ctx.evals(len(ps))
+            n += 1
+            rv = ps[0].exit[1] if len(ps) == 1 and ps[0].exit[0] == "return" else None
+            if not isinstance(rv, Obj):
+                undecided += 1
+                continue
+            f_ = {**rv.kwargs, **rv.fields}
+            gv = dict(f_.get("value") or {})
+            gd = {a: {b: (dict(r)).get(b, None) for b in nodes} for a, r in (f_.get("distance_matrix") or {}).items()}
+            problems = []
+            if f_.get("depth") != L:
+                problems.append(f"depth {vkey(f_.get('depth'))} (expected {L})")
+            if gv != want_value:
+                problems.append(f"values {gv} (expected {want_value})")
+            if gd != want_dist:
+                dd_ = [(a, b, gd.get(a, {}).get(b), want_dist[a][b]) for a in nodes for b in nodes if gd.get(a, {}).get(b) != want_dist[a][b]]
+                problems.append(f"distance({dd_[0][0]}, {dd_[0][1]}) = {dd_[0][2]} (expected {dd_[0][3]})")
+            if sorted(f_.get("nodes") or []) != nodes or sorted(f_.get("sources") or []) != sorted(sources):
+                problems.append(f"nodes/sources {f_.get('nodes')}/{f_.get('sources')}")
+            if problems:
+                bad += 1
+                ctx.violation("C16.R5", fi.qual, loc(fi), "component summary of a small DAG", f"component with edges {edges or '(single task)'}: enrich gives " + "; ".join(problems))
+                break
+        if bad:
+            break
+    if undecided:
+        ctx.undecided("C16.R5", loc(fi), f"{undecided} of {n} small DAGs: enrich is not a single completed path returning a ComponentCore")
+    elif not bad:
+        ctx.ok("C16.R5", loc(fi), f"enrich == definitions (depth, value, distances, sources) on all {n} weakly connected DAGs with up to four tasks")
+    ctx.floor("C16.R5.dags", n, 40)
+
+
+RULES.append(r5_enrich_small_scope)
